@@ -177,6 +177,7 @@ ViewsOK(pre, e) ==
                Ck("C15", "FiltersExact",
                   /\ SeqToSet(F[sn].all) = mine(sn)
                   /\ SeqToSet(F[sn].executable) = {o \in mine(sn) : pre.ord[o].status = "EXECUTABLE"}
+                  /\ SeqToSet(F[sn].livestatus) = {o \in mine(sn) : pre.ord[o].status \in {"PENDING", "EXECUTABLE", "CANCELLING", "UPDATING", "REPLACING"}}
                   /\ SeqToSet(F[sn].complete) = {o \in mine(sn) : pre.ord[o].status = "COMPLETE"}
                   /\ SeqToSet(F[sn].matched) = {o \in mine(sn) : pre.ord[o].m > 0},
                   <<mid, sn, F[sn]>>)
